@@ -134,12 +134,84 @@ POOLS = {"str": STRS, "int": INTS, "bool": BOOLS, "none": [None], "bytes": BYTES
 TYPES = list(POOLS)
 EXTRA_KW_NAMES = ["x", "y", "zz"]
 
+# Text outside ASCII.  A Python `str` is a sequence of code points and `_decode_direct` renders it as itself (model:
+# `typeFmt (.str s) = s`, Props/C08.lean `str_text_is_identity`), so *different* strings that some notion of "the same
+# text" identifies must keep different keys.  Every family below lists pairwise different strings (all non-empty and
+# ':'-free) that one realistic normalising / folding / trimming / re-encoding renderer would merge:
+TEXT_FAMILIES = {
+    # unicodedata.normalize("NFC" / "NFD"): canonical equivalence
+    "canonical": ["caf\u00e9", "cafe\u0301"],
+    "canonical_singleton": ["\u00c5", "\u212b", "A\u030a"],                # A-ring, ANGSTROM SIGN, A + combining ring
+    "canonical_ohm": ["\u03a9", "\u2126"],                                 # GREEK OMEGA, OHM SIGN
+    "canonical_mark_order": ["a\u0323\u0307", "a\u0307\u0323", "\u1ea1\u0307"],   # marks of different classes reorder
+    "canonical_cjk": ["\uf900", "\u8c48"],                          # CJK compatibility ideograph / unified
+    "canonical_hangul": ["\uac00", "\u1100\u1161"],                        # precomposed syllable / conjoining jamo
+    # NFKC / NFKD: compatibility equivalence
+    "compat_ligature": ["\ufb01", "fi"],
+    "compat_fullwidth": ["\uff11\uff12", "12", "\u0661\u0662"],            # full-width digits, ASCII, Arabic-Indic (int() reads all three as 12)
+    "compat_super": ["x\u00b2", "x2", "x\u2461"],
+    "compat_math": ["\U0001d400", "A", "\uff21"],                          # MATHEMATICAL BOLD A (non-BMP), A, FULLWIDTH A
+    # lower() / upper() / casefold()
+    "case_ascii": ["Key", "key", "KEY"],
+    "case_sharp_s": ["stra\u00dfe", "strasse", "STRASSE", "stra\u1e9ee"],
+    "case_sigma": ["\u03c3", "\u03c2", "\u03a3"],
+    "case_dotted_i": ["\u0130", "i\u0307", "I", "i", "\u0131"],
+    # strip() / split() / " ".join: white space at the ends, kinds of space
+    "space_ends": ["x", " x", "x ", " x ", "x\t", "x\n", "\u00a0x", "x\u3000", "x\u2028"],
+    "space_inner": ["a b", "a  b", "a\u00a0b", "a\tb", "a\u2009b"],
+    # characters that print as nothing
+    "zero_width": ["ab", "a\u200bb", "a\u200cb", "a\u200db", "a\u2060b", "a\ufeffb", "\ufeffab", "a\u00adb", "ab\u200e", "a\u034fb"],
+    "control": ["ab", "a\x00b", "ab\x00", "a\x7fb", "a\x85b", "a\x1bb"],
+    # encode("ascii", "ignore" / "replace" / ...), latin-1 / utf-8 confusion, 16-bit truncation
+    "lossy_ascii": ["\u00e9", "e", "?", "\u00c3\u00a9", "\\xe9", "\\u00e9", "\ufffd", "e\u0301"],
+    "non_bmp": ["\U0001f600", "\U0001f601", "\uf600", "\ud7ff", "\ue000", "\uffff", "\U00010000", "\U0010ffff",
+                "\U0001f1e9\U0001f1ea", "\U0001f1ea\U0001f1e9", "\U0001f44d", "\U0001f44d\U0001f3fd", "\u2764", "\u2764\ufe0f"],
+    # truncation / length limits: texts that differ only far from the start
+    "long_tail": ["k" * 40 + "a", "k" * 40 + "b", "k" * 40, "\u00e9" * 130 + "1", "\u00e9" * 130 + "2", "\U0001f600" * 70 + "1", "\U0001f600" * 70 + "2"],
+    # homoglyphs (confusable folding)
+    "homoglyph": ["a", "\u0430", "\u0251", "o", "\u03bf", "\u043e", "0"],
+}
+USTRS = sorted({s for fam in TEXT_FAMILIES.values() for s in fam})
+FAMILY_OF: dict = {}
+for _fam, _members in TEXT_FAMILIES.items():
+    for _s in _members:
+        FAMILY_OF.setdefault(_s, []).append(_fam)
+# the same texts as UTF-8 bytes arguments (all valid UTF-8: rendered by `bytes.decode()`)
+UBYTES = [s.encode("utf-8") for s in USTRS]
+# containers holding them: 1-tuples (text without ':'), longer tuples, dict values, nested
+UTUPLES = [("caf\u00e9",), ("cafe\u0301",), ("\u00c5", 1), ("\u212b", 1), (("\ufb01",), "z"), (("fi",), "z"), ("x ", "y"), ("x", "y"),
+           (b"caf\xc3\xa9",), (b"cafe\xcc\x81",), ("\U0001f600",), ("\U0001f601",)]
+UDICTS = [{"k": "caf\u00e9"}, {"k": "cafe\u0301"}, {"k": "\u03a9", "j": 1}, {"k": "\u2126", "j": 1}, {"k": ("a\u200bb",)}, {"k": ("ab",)},
+          {"\u00e9": 1, "e\u0301": 2}, {"e\u0301": 1, "\u00e9": 2}, {"k": "Key"}, {"k": "key"}]
+UPOOLS = {"str": USTRS, "bytes": UBYTES, "tuple": UTUPLES, "dict": UDICTS}
+P_UNICODE = 0.3     # share of non-ASCII draws in the general stream
+
 
 def gen_value(rng, typ=None, malformed=False):
     if malformed and rng.random() < 0.6:
         return rng.choice(MALFORMED)
     typ = typ or rng.choice(TYPES)
+    if typ in UPOOLS and rng.random() < P_UNICODE:
+        return rng.choice(UPOOLS[typ])
     return rng.choice(POOLS[typ])
+
+
+def text_variants(v):
+    """values of the same structural type that differ from `v` only by another member of a text family at a `str`
+    leaf, or at a valid-UTF-8 `bytes` leaf"""
+    if isinstance(v, str):
+        return [w for fam in FAMILY_OF.get(v, []) for w in TEXT_FAMILIES[fam] if w != v]
+    if isinstance(v, bytes):
+        try:
+            s = v.decode("utf-8")
+        except UnicodeDecodeError:
+            return []
+        return [w.encode("utf-8") for w in text_variants(s)]
+    if isinstance(v, tuple):
+        return [v[:i] + (w,) + v[i + 1:] for i in range(len(v)) for w in text_variants(v[i])]
+    if isinstance(v, dict):
+        return [{**v, k: w} for k in v for w in text_variants(v[k])]
+    return []
 
 
 def pool_type(v) -> str:
@@ -149,8 +221,13 @@ def pool_type(v) -> str:
 
 
 def other_value_same_type(rng, v):
-    """a different value of the same pool type (None has none)"""
-    pool = [w for w in POOLS[pool_type(v)] if canon(w) != canon(v)]
+    """a different value of the same pool type (None has none); for text inside a family of look-alikes mostly
+    another member of the family"""
+    near = text_variants(v)
+    if near and rng.random() < 0.75:
+        return rng.choice(near)
+    pt = pool_type(v)
+    pool = [w for w in POOLS[pt] + UPOOLS.get(pt, []) if canon(w) != canon(v)]
     deep = [w for w in pool if deep_type(w) == deep_type(v)]
     if deep and rng.random() < 0.7:
         return rng.choice(deep)
